@@ -635,14 +635,22 @@ func (c *vsCfg) checkState(vs *types.VoteSet, m *model, prevMaj int) (string, st
 	for _, blk := range c.blocks {
 		bb := vs.BitArrayByBlockID(blockIDs[blk])
 		mb := m.blocks[blk]
-		if (bb == nil) != (mb == nil) {
-			return "voteset:model-divergence:BitArrayByBlockID", fmt.Sprintf("BitArrayByBlockID(%s) nil=%v, reference has a tally=%v", idName[blk], bb == nil, mb != nil)
+		diverges := (bb == nil) != (mb == nil)
+		for v := 0; !diverges && mb != nil && v < w.n; v++ {
+			_, voted := mb.voters[v]
+			diverges = bb.GetIndex(v) != voted
 		}
-		for v := 0; mb != nil && v < w.n; v++ {
-			if _, voted := mb.voters[v]; bb.GetIndex(v) != voted {
-				return "voteset:model-divergence:BitArrayByBlockID", fmt.Sprintf("BitArrayByBlockID(%s) bit %d differs from the reference", idName[blk], v)
+		if !diverges {
+			continue
+		}
+		// root cause, if it is this one: two different ids of the alphabet are filed under one tally key
+		for _, o := range c.blocks {
+			if o != blk && blockIDs[o].Key() == blockIDs[blk].Key() {
+				return "voteset:distinct-block-ids-share-a-tally", fmt.Sprintf("the per-block view of %s shows the votes of another id: %s and %s are different block ids (%v vs %v) but are tallied under one key %q",
+					idName[blk], idName[blk], idName[o], blockIDs[blk], blockIDs[o], blockIDs[blk].Key())
 			}
 		}
+		return "voteset:model-divergence:BitArrayByBlockID", fmt.Sprintf("BitArrayByBlockID(%s) = %v differs from the reference tally of that id", idName[blk], bb)
 	}
 	ba := vs.BitArray()
 	for v := 0; v < w.n; v++ {
